@@ -9,7 +9,6 @@ package hsverif
 import (
 	"encoding/json"
 	"fmt"
-	"os"
 	"path/filepath"
 	"runtime"
 	"sync"
@@ -119,10 +118,14 @@ func (fx *fixture) executeProto(rep *vfutil.Report, b pBehaviour, seed int64, co
 func TestProtoReplay(t *testing.T) {
 	rep := vfutil.NewReport("C14")
 	defer func() { rep.Save(!t.Failed() || rep.NumViolations() > 0) }()
+	protoReplayBody(t, rep, nil)
+}
+
+func protoReplayBody(t *testing.T, rep *vfutil.Report, env envMap) {
 	fx := newFixture()
 	fx.pool.begin()
 	defer fx.pool.end()
-	conform := os.Getenv("VERIF_MODE") != "probe"
+	conform := env.get("VERIF_MODE") != "probe"
 	var bs []pBehaviour
 	if raw, ok := vfutil.ReplayFile(); ok {
 		var b pBehaviour
@@ -132,7 +135,7 @@ func TestProtoReplay(t *testing.T) {
 		bs, conform = []pBehaviour{b}, false
 	} else {
 		var err error
-		dir := os.Getenv("VERIF_BEHAVIOURS")
+		dir := env.get("VERIF_BEHAVIOURS")
 		if bs, err = vfutil.LoadJSONFiles[pBehaviour](dir); err != nil {
 			t.Fatal(err)
 		}
@@ -142,6 +145,15 @@ func TestProtoReplay(t *testing.T) {
 	}
 	if len(bs) == 0 {
 		t.Fatal("no behaviours")
+	}
+	if max := env.num("VERIF_SAMPLE", 0); max > 0 && len(bs) > max {
+		// evenly spaced sample, rotated by the seed
+		off := int(vfutil.Seed()) % len(bs)
+		var sel []pBehaviour
+		for i := 0; i < max; i++ {
+			sel = append(sel, bs[(off+i*len(bs)/max)%len(bs)])
+		}
+		bs = sel
 	}
 	seed := vfutil.Seed()
 	for i, b := range bs {
@@ -210,12 +222,16 @@ func (fx *fixture) runFreeProto(descs []psessDesc, seed int64, timeout time.Dura
 func TestProtoReuse(t *testing.T) {
 	rep := vfutil.NewReport("C14")
 	defer func() { rep.Save(!t.Failed() || rep.NumViolations() > 0) }()
+	protoReuseBody(t, rep, nil)
+}
+
+func protoReuseBody(t *testing.T, rep *vfutil.Report, env envMap) {
 	old := runtime.GOMAXPROCS(1)
 	defer runtime.GOMAXPROCS(old)
 	fx := newFixture()
 	rnd := vfutil.Rand()
 	crumb(map[string]any{"test": "TestProtoReuse", "seed": vfutil.Seed()})
-	attempts := vfutil.EnvInt("VERIF_ATTEMPTS", 20)
+	attempts := env.num("VERIF_ATTEMPTS", 20)
 	in := func(sup ...int) pInCfg { return pInCfg{Allowed: []int{0}, First: 0, Supported: sup} }
 	first := []psessDesc{{O: pOutCfg{Encs: "1,0"}, I: in(0, 1)}, {O: pOutCfg{Encs: "1"}, I: in(1)}}
 	second := []psessDesc{{O: pOutCfg{Encs: ""}, I: in(0, 1)}, {O: pOutCfg{Encs: "0"}, I: in(0, 1)}, {O: pOutCfg{Encs: "0,1"}, I: in(1)}, {O: pOutCfg{Encs: ""}, I: in()}}
